@@ -134,7 +134,7 @@ def case_thermo(rng):
 
 
 def case_component(rng):
-    c = rng.choice(gens.builtin_components()) if rng.random() < 0.5 else gens.random_component(rng)
+    c = rng.choice(gens.builtin_components()) if rng.random() < 0.5 else gens.random_component(rng, any_c=True)
     T, T1 = rng.uniform(220, 480), rng.uniform(220, 480)
     try:
         vals = (c.get_vapor_pressure(T), c.get_vaporisation_heat(T), c.get_specific_heat(T), c.get_cooling_heat(T, T1))
@@ -231,7 +231,7 @@ def case_process(rng, nmax):
     pvo = pvtools.Counting(mem, m)
     kind = cfg['kind']
     import random as _r
-    cs = po.curve_set(m, _r.Random(1), cfg['ncurves'], cfg['cbasis']) if kind.startswith('nonideal') else None
+    cs = po.curve_set(m, _r.Random(1), cfg['ncurves'], cfg['cbasis'], cfg.get('sameT', False)) if kind.startswith('nonideal') else None
     try:
         pm, _, _ = po.run(cfg, pvo=pvo)
         if not finite(pm_numbers(pm)):
